@@ -20,7 +20,8 @@ OPS = ["append", "calc", "calcX", "purge", "purgeX", "recalc", "recalcX", "cidx+
 def obligations(tier):
     obs = []
     L = 2 if tier == "quick" else 3
-    for kind, name, kw, w in all_specs(tier):
+    specs = all_specs(tier) + [("ind", name, dict(kw, **extra), w) for name, kw, w, extra in CONFIG_VARIANTS if name in ("EMA", "SMA", "BBANDS", "MACD", "VWMA", "ATR")]
+    for kind, name, kw, w in specs:
         if kind == "amorph" and name not in ("rising", "highest", "crossover", "positive"):
             continue
         heavy = name in HEAVY
